@@ -110,6 +110,13 @@ CHECKS = {
             "with real threads.",
             "z3; queue.Queue FIFO/blocking semantics; T<=2 quick (T<=3 thorough), n<=5; a timed get may time out only on an empty queue",
             "DESIGN.md 2.3, 3/C13"),
+    "C07": ("symx+pocomp",
+            "bounded symbolic execution of the real iteration code with a failing decoder (z3) + pocomp queries for the lazy pool + finite fork on real decoders / rebuilt native extension",
+            "For every position of the unreadable shard, every parallelism / shuffle / random index sequence within the bounds the "
+            "consumer observes an exception on every Python interface; the lazy pool part holds for all interleavings (pocomp); "
+            "real decoders, real threads and the rebuilt Rust extension are swept over damage kind x position under a watchdog.",
+            "z3; contracts of C13; executor re-raise contract; Rust reader covered by concrete sweep (protocol: C15); tf.data outside",
+            "DESIGN.md 3/C07"),
 }
 
 PENDING_REASON = "check not built yet in this round (work in progress; see DESIGN.md section 3 for the planned encoding)"
